@@ -553,7 +553,8 @@ class C19(C.Check):
             for name, term in coq_checks(case, out):
                 checks.append(term)
                 meta.append((case, name))
-        bad = C.eval_cases(self.prop, "corr", HEADER, checks, shard=60)
+        from .. import lg_common as L
+        bad = L.eval_cases_pid(C, self.prop, HEADER, checks, 60)
         seen = set()
         for i in bad:
             case, name = meta[i]
